@@ -6,6 +6,7 @@ import (
 	"fmt"
 	"io"
 	"runtime"
+	"sync"
 
 	"gitlab.com/gomidi/midi/v2/smf"
 
@@ -26,7 +27,7 @@ func init() {
 			"termination is observed by the per-run watchdog (a hang makes the run inconclusive, with the case id in the worker's current-case file)",
 			"the prefix relation is event-for-event on (delta, canonical message bytes); a missing end-of-track at the end of the last track is a legitimate prefix",
 		},
-		Require: []string{"truncations", "truncation_results_ok_value", "truncation_results_error", "mutants", "random_strings", "targeted", "alloc_measurements", "reads_with_log", "big_payload_truncations", "proportionality_checks"},
+		Require: []string{"truncations", "truncation_results_ok_value", "truncation_results_error", "mutants", "random_strings", "targeted", "alloc_measurements", "reads_with_log", "big_payload_truncations", "proportionality_checks", "concurrent_truncation_files"},
 		UsesCur: true,
 		Run:     runC05,
 	})
@@ -366,6 +367,55 @@ func runC05(c *mon.Ctx) {
 			c.Violation("alloc-superlinear", fmt.Sprintf("allocation per input byte grows with the input: %.1f B/B for %d bytes, %.1f B/B for %d bytes", perByte[0], sizes[0], perByte[len(perByte)-1], sizes[len(sizes)-1]), fmt.Sprint(sizes), fmt.Sprintf("about %.1f B/B", perByte[0]), fmt.Sprint(perByte))
 		}
 		c.DistinctBytes([]byte(fmt.Sprint("prop", i)))
+	})
+
+	// ---- independent reads from 8 goroutines at once: the prefix relation must hold all the same
+	c.Each("concurrent-truncations", c.N(8, 100), func(i int64, r *mon.Rand) {
+		type job struct {
+			b     []byte
+			truth *ref.File
+			bad   string
+			nt    int
+		}
+		jobs := make([]*job, 16)
+		for k := range jobs {
+			f := gen.SMFFile(mon.NewRand(c.Seed, "C05conc", fmt.Sprint(i), uint64(k)), gen.FileOpts{MaxTracks: 3, MaxEvents: 12, PaddedVLQ: true, Running: true})
+			jobs[k] = &job{b: f.Bytes(nil), truth: f.Truth(), nt: len(f.Tracks)}
+		}
+		var wg sync.WaitGroup
+		for g := 0; g < 8; g++ {
+			wg.Add(1)
+			go func(g int) {
+				defer wg.Done()
+				for k := g; k < len(jobs); k += 8 {
+					j := jobs[k]
+					func() {
+						defer func() {
+							if p := recover(); p != nil && j.bad == "" {
+								j.bad = fmt.Sprintf("panic: %v", p)
+							}
+						}()
+						for cut := 0; cut <= len(j.b); cut++ {
+							s, err := smf.ReadFrom(bytes.NewReader(j.b[:cut]))
+							if err != nil || s == nil {
+								continue
+							}
+							if d := prefixOK(j.truth, fromLib(s), j.nt); d != "" && j.bad == "" {
+								j.bad = fmt.Sprintf("truncated at %d of %d: %s", cut, len(j.b), d)
+							}
+						}
+					}()
+				}
+			}(g)
+		}
+		wg.Wait()
+		for _, j := range jobs {
+			c.Count("concurrent_truncation_files", 1)
+			c.Eval(int64(len(j.b)))
+			if j.bad != "" {
+				c.Violation("truncation-fabricates-concurrent", "prefix reads run from 8 goroutines at once (independent inputs): "+j.bad, mon.Hex(j.b), nil, nil)
+			}
+		}
 	})
 
 	// ---- grammar-mutated files
